@@ -344,6 +344,8 @@ package raft
 
 //@ func (r *Raft) persistVote
 //@   requires nonnil: r != nil && r.stable != nil
+//@   requires vote_le_current: voteTerm(r) <= curTermDurable(r)
+//@   requires own_term: term == curTermDurable(r)
 //@   modifies r.stable.has, r.stable.val, r.stable.nilval, r.stable.hasu, r.stable.u64
 //@   ensures  ok: result == nil ==> voteTerm(r) == term && voteCand(r) == content(candidate)
 //@   observe old_cur_term: curTermDurable(r)
@@ -351,6 +353,7 @@ package raft
 //@   observe old_cand: ite(voteCandSet(r), voteCand(r), "")
 //@   observe new_cand: content(candidate)
 //@   ensures  current_term_untouched: curTermDurable(r) == old(curTermDurable(r))
+//@   ensures  vote_term_bounded: voteTerm(r) == old(voteTerm(r)) || voteTerm(r) == term
 //@   crash_invariant record_atomic: voteTerm(r) >= curTermDurable(r) && voteCandSet(r) ==>
 //@       (voteTerm(r) == old(voteTerm(r)) && voteCand(r) == old(voteCand(r)) && old(voteCandSet(r))) ||
 //@       (voteTerm(r) == term && voteCand(r) == content(candidate))
@@ -365,6 +368,8 @@ package raft
 //@ func (r *Raft) requestVote
 //@   requires nonnil: r != nil && req != nil && r.stable != nil && r.trans != nil && r.logger != nil && rpc.RespChan != nil
 //@   requires term_inv: r.currentTerm == curTermDurable(r)
+//@   requires vote_le_current: voteTerm(r) <= curTermDurable(r)
+//@   ensures  vote_le_current: voteTerm(r) <= curTermDurable(r)
 //@   ensures  responded: sent(rpc.RespChan) == old(sent(rpc.RespChan)) + 1 && typeis(lastsent(rpc.RespChan).Response, *RequestVoteResponse)
 //@   ensures  term_inv: r.currentTerm == curTermDurable(r)
 //@   ensures  term_monotone: r.currentTerm >= old(r.currentTerm)
